@@ -14,20 +14,22 @@ Line protocol of the `fastscan` engine (C25).
 Property oracle (on the implementation's own answer): if the full parser accepted the file then
 fastscan reported no syntax error and returned the parser's package name and the parser's
 imports, in order, with the same public/weak(/option) flags.  It also checks the hypothesis under
-which C25's theorems speak about this input: the reference token stream (`lexRef`: string
-literals valued as the full parser values them) is in the language L and `topLevel` reads the
-same package/imports off it as the parser did.
+which C25's theorems speak about this input: the token stream with string literals valued as the
+full parser values them is in the language L and `topLevel` reads the same package/imports off
+it as the parser did.
 
-Known failure on the unchanged tree (C25_full_refuted): an import path literal with ill-formed
-UTF-8 — verdict `fails fastscan-disagrees-with-parser ill-formed-utf8-in-literal …`.
+Coupling with the main lexer (C25_rawbytes_refuted): if the full parser is changed to copy
+ill-formed UTF-8 bytes of a literal (as protoc does) while fastscan keeps writing U+FFFD, an
+import path literal with ill-formed UTF-8 makes the oracle fail with the verdict
+`fails fastscan-disagrees-with-parser ill-formed-utf8-in-literal …`.
 -/
 namespace PCV.Engines.FastscanE
 open PCV.Wire PCV.Fastscan
 
 /-- `false`: the model of the Go code as it is (ill-formed UTF-8 in a string literal becomes
-    U+FFFD). If the proposed fix is applied to parser/fastscan/lexer.go (copy ill-formed bytes),
-    set this to `true`: the model is then `scanBytesPatched`, for which `C25_full_after_patch`
-    is the theorem. -/
+    U+FFFD). If parser/fastscan/lexer.go is changed to copy ill-formed bytes (which must
+    accompany the same change in parser/lexer.go), set this to `true`: the model is then
+    `scanBytesPatched`, for which `C25_rawbytes_after_patch` is the theorem. -/
 def patched : Bool := false
 
 def scanModel (src : List UInt8) : Out := if patched then scanBytesPatched src else scanBytes src
@@ -78,13 +80,17 @@ def spec (line ans : String) : String :=
           if kind ≠ "acc1" ∧ kind ≠ "acc2" then "fails bad-parser-verdict" else
           -- what the real parser read from the file
           let want := " ".intercalate rest
-          -- 1. the hypothesis under which the theorems speak about this input: the reference
-          --    token stream (string values as the full parser computes them) is in L and
-          --    topLevel reads the parser's own package/imports off it
-          match topLevel (lexRef src) with
-          | none => s!"fails accepted-file-outside-L [{kind}]"
-          | some r =>
-            if showRes r.pkg r.imports ≠ want then
+          -- 1. the hypothesis under which the theorems speak about this input: the token stream
+          --    with string literals valued as the full parser values them is in L and topLevel
+          --    reads the parser's own package/imports off it. The full parser's treatment of an
+          --    ill-formed UTF-8 byte inside a literal is not fastscan's business: either
+          --    convention (U+FFFD as parser/lexer.go does today = `lex`; the byte itself as
+          --    protoc does = `lexRef`) is accepted as the reference here.
+          match topLevel (lex src), topLevel (lexRef src) with
+          | none, _ => s!"fails accepted-file-outside-L [{kind}]"
+          | _, none => s!"fails accepted-file-outside-L [{kind}]"
+          | some r, some r' =>
+            if showRes r.pkg r.imports ≠ want ∧ showRes r'.pkg r'.imports ≠ want then
               s!"fails topLevel-differs-from-parser [{kind}] topLevel: {showRes r.pkg r.imports} parser: {want}"
             -- 2. the property itself, on the implementation's answer
             else if fast = want ++ " err" then "holds"
